@@ -23,6 +23,8 @@ func init() {
 	verifRegister("VerifC12_Corrupted", VerifC12_Corrupted)
 	verifRegister("VerifC12_CorruptedLong", VerifC12_CorruptedLong)
 	verifRegister("VerifC02_H5_CorruptedSegments", VerifC02_H5_CorruptedSegments)
+	verifRegister("VerifC03_LongJunk", VerifC03_LongJunk)
+	verifRegister("VerifC02_H7_LongJunk", VerifC02_H7_LongJunk)
 }
 
 type c03Segment struct {
@@ -287,3 +289,53 @@ func VerifC02_H5_CorruptedSegments() {
 	verifAssert("no-empty-message", !empty)
 	verifAssert("concatenation-equals-input", verifBytesEq(cat, stream2))
 }
+
+// Long runs of other data: a run of n bytes (one symbolic value that is not
+// 0xD3, repeated), n around the sizes at which an implementation might cut
+// a run into pieces (1029 = the longest frame, 4096, 8192), then a frame
+// with symbolic payload and two more bytes.  How the run itself is cut into
+// non-RTCM messages is left open; required are: no empty message, the
+// delivered bytes concatenate to the input, and the frame is recognised
+// exactly once, typed, with exactly its bytes.  (Registered under C02 and
+// C03.)
+func VerifC03_LongJunk() {
+	verifOwnDeadlocks()
+	lens := []int{1029, 1030, 4095, 4096, 4097, 8192, 8193}
+	n := lens[verifParam("run", 0, len(lens)-1)]
+	j := verifU8("junk")
+	verifAssume(j != 0xd3)
+	var stream []byte
+	for i := 0; i < n; i++ {
+		stream = append(stream, j)
+	}
+	f := c03Frame("f", 2)
+	stream = append(stream, f...)
+	tail := c03Junk("t", 2)
+	stream = append(stream, tail...)
+	verifWitness("reached")
+	got := c03Run(stream)
+	verifWitness("handled")
+	var cat []byte
+	empty := false
+	typed := 0
+	var last Message
+	for i := range got {
+		if len(got[i].RawData) == 0 {
+			empty = true
+		}
+		cat = append(cat, got[i].RawData...)
+		if got[i].MessageType >= 0 {
+			typed++
+			last = got[i]
+		}
+	}
+	verifAssert("no-empty-message", !empty)
+	verifAssert("concatenation-equals-input", verifBytesEq(cat, stream))
+	verifAssert("frame-after-long-run-recognised-once", typed == 1)
+	if typed == 1 {
+		verifAssert("frame-after-long-run-bytes", verifBytesEq(last.RawData, f))
+		verifAssert("frame-after-long-run-type", last.MessageType == first12PayloadBits(f))
+	}
+}
+
+func VerifC02_H7_LongJunk() { VerifC03_LongJunk() }
